@@ -93,19 +93,30 @@ def read_excel(
             return True
         return sheet_name_pattern.match(name) is not None
 
-    for name, row_cell_iter in read_sheets(source):
-        if not name_matches(name):
-            logger.debug(f"Skipping sheet '{name}'")
-            continue
-        location_sheet = location_file.make_location_sheet(name)
-        yield from parse_blocks(
-            row_cell_iter,
-            location_sheet=location_sheet,
-            fixer=fixer,
-            to=to,
-            filter=filter,
-            issue_tracker=issue_tracker,
-        )
+    sheets = read_sheets(source)
+    try:
+        for name, row_cell_iter in sheets:
+            if not name_matches(name):
+                logger.debug(f"Skipping sheet '{name}'")
+                continue
+            location_sheet = location_file.make_location_sheet(name)
+            try:
+                yield from parse_blocks(
+                    row_cell_iter,
+                    location_sheet=location_sheet,
+                    fixer=fixer,
+                    to=to,
+                    filter=filter,
+                    issue_tracker=issue_tracker,
+                )
+            finally:
+                # the row iterator keeps a member of the workbook archive open while suspended
+                if hasattr(row_cell_iter, "close"):
+                    row_cell_iter.close()
+    finally:
+        # Close the workbook now: when an error propagates from a block, the suspended sheet
+        # generator (which owns the open workbook) would otherwise live as long as the traceback
+        sheets.close()
 
 
 class ExcelWriteBackend(Enum):
